@@ -316,17 +316,41 @@ func (h *baseHandler) flush() {
 	}
 }
 
+// Wait until all server messages have been handed over (or the session is gone).
+func (h *baseHandler) waitMessagesTaken() {
+	for len(h.serverMessages) > 0 {
+		select {
+		case <-h.done.Done():
+			return
+		case <-time.After(time.Millisecond * 10):
+		}
+	}
+}
+
 func (h *baseHandler) shutdown() {
 	dlog.Server.Debug(h.user, "shutdown()")
 	h.flush()
 
+	synQueued := make(chan struct{})
 	go func() {
+		defer close(synQueued)
 		select {
 		case h.serverMessages <- ".syn close connection":
 			vhook.At("syn.enqueue", h)
 		case <-h.done.Done():
 		}
 	}()
+
+	// The connection asks for the next message only once it has written the previous one.
+	// So wait until it has taken the close message: everything before it is on its way to
+	// the client then. Starting the timeout below any earlier closes the connection over
+	// data the connection still holds (the rest of a long last line, a write blocked by a
+	// client which does not read at the moment).
+	select {
+	case <-synQueued:
+		h.waitMessagesTaken()
+	case <-h.done.Done():
+	}
 
 	select {
 	case <-h.ackCloseReceived:
